@@ -475,7 +475,9 @@ def cachedseq_gen(rng, tier):
 
         prefetch = i % 2 == 1
         ttl = 4 if prefetch else 60
-        rr = b"\xc0\x0c" + struct.pack(">HHIH", qtype, qclass, ttl, 4) + bytes(rng.randrange(256) for _ in range(4))
+        rdl = {1: 4, 28: 16}.get(qtype, 4)          # A: 4 octets, AAAA: 16; TXT: one 3-octet string
+        rdata = bytes([3]) + bytes(rng.randrange(97, 123) for _ in range(3)) if qtype == 16 else bytes(rng.randrange(256) for _ in range(rdl))
+        rr = b"\xc0\x0c" + struct.pack(">HHIH", qtype, qclass, ttl, len(rdata)) + rdata
         uopt = b"\0" + struct.pack(">HHIH", 41, 4096, 0x8000, 12) + struct.pack(">HH", 10, 8) + bytes(rng.randrange(256) for _ in range(8))
         reply = struct.pack(">HHHHHH", 0, 0x8180, 1, 2, 0, 1) + question + rr + rr + uopt
         clients = ["192.0.2.%d" % rng.randrange(1, 255), "2001:db8:%x::1" % rng.randrange(1, 65536), "198.51.100.%d" % rng.randrange(1, 255)]
@@ -499,11 +501,11 @@ def cachedseq_gen(rng, tier):
     for j in range(budget(tier, 2, 12)):
         i = n + j
         cfg = "U=t;E=0;S=-;R=-:0:0:0;C=400000"
-        labels = [b"big%d" % i, b"x" * 40, rng.choice(VOCAB), b"test"]
+        labels = [b"big%d" % i, b"x" * 60, b"y" * 60, b"z" * 60, b"w" * 50, b"test"]
         name = gens.raw_name(labels)
         qtype, qclass = 1, 1
         question = name + b"\0" + struct.pack(">HH", qtype, qclass)
-        nrec = rng.choice([1000, 1100, 1200])                     # 16 octets each compressed, ~70 uncompressed
+        nrec = rng.choice([270, 280, 300])                        # 16 octets each compressed, ~260 uncompressed
         rrs = b"".join(b"\xc0\x0c" + struct.pack(">HHIH", 1, 1, 300, 4) + struct.pack(">I", 0x0a000000 + k) for k in range(nrec))
         reply = struct.pack(">HHHHHH", 0, 0x8180, 1, nrec, 0, 0) + question + rrs
         assert len(reply) <= 65535
